@@ -45,7 +45,12 @@ func tableRemove(L *LState) int {
 	if L.Get(2) == LNil { // no position, or an explicit nil: the last element
 		L.Push(tbl.Remove(-1))
 	} else {
-		L.Push(tbl.Remove(L.CheckInt(2)))
+		pos := L.CheckInt(2)
+		if pos < 1 || pos > tbl.Len() {
+			// tremove: a position outside 1..#t removes nothing and returns nothing
+			return 0
+		}
+		L.Push(tbl.Remove(pos))
 	}
 	return 1
 }
